@@ -7,9 +7,17 @@ import (
 	"verifharness/hx"
 )
 
+// maxResolved bounds the crashing cases that are resolved op by op in one run (each costs several
+// child processes); further crashing cases are reported truncated to nothing and counted.
+const maxResolved = 40
+
+var resolved = 0
+
 // Batch runs op scripts in child processes (children registered by RegisterScriptChildren): all
-// scripts in ONE child; when that child dies each script gets its own child, and a script whose child
-// dies is re-run op by op on its prefixes, so exactly the fatal ops are answered `crash` / `hang`.
+// scripts in ONE child. When that child dies each script gets its own child; for a script whose child
+// dies the first fatal op is located by bisection over script prefixes (a prefix dies iff it
+// contains a fatal op): the ops before it get their answers, the fatal op is answered `crash` (or
+// `hang`) and the rest of that case is dropped — the returned answer list is shorter than the script.
 func Batch(c *hx.Ctx, scripts [][]string) [][]string {
 	joined := make([]string, len(scripts))
 	for i, sc := range scripts {
@@ -37,20 +45,43 @@ func Batch(c *hx.Ctx, scripts [][]string) [][]string {
 		}
 	}
 	c.Note("child:batch-died")
+	runPrefix := func(sc []string, n int) (string, []string) {
+		r := hx.RunChild("case", strings.Join(sc[:n], "\n"), 30*time.Second)
+		return r, split(r, n)
+	}
 	for i, sc := range scripts {
-		if out[i] = split(hx.RunChild("case", joined[i], 30*time.Second), len(sc)); out[i] != nil {
+		if _, a := runPrefix(sc, len(sc)); a != nil {
+			out[i] = a
 			continue
 		}
 		c.Note("child:case-died")
-		out[i] = make([]string, len(sc))
-		for j := range sc {
-			out[i][j] = hx.RunChild("last", strings.Join(sc[:j+1], "\n"), 15*time.Second)
+		if resolved >= maxResolved {
+			c.Note("child:case-died-unresolved")
+			out[i] = []string{}
+			continue
 		}
+		resolved++
+		// smallest n such that the prefix of length n dies: lo survives, hi dies
+		lo, hi := 0, len(sc)
+		var loAns []string
+		how := "crash"
+		for hi-lo > 1 {
+			mid := (lo + hi) / 2
+			if r, a := runPrefix(sc, mid); a != nil {
+				lo, loAns = mid, a
+			} else {
+				hi = mid
+				if r == "hang" {
+					how = "hang"
+				}
+			}
+		}
+		out[i] = append(append([]string{}, loAns...), how)
 	}
 	return out
 }
 
-// RegisterScriptChildren registers the three child entry points over an interpreter factory:
+// RegisterScriptChildren registers the child entry points over an interpreter factory:
 // newExec returns a function that executes one op line against a fresh environment.
 func RegisterScriptChildren(newExec func() func(op string) string) {
 	runCase := func(arg string) string {
@@ -70,13 +101,5 @@ func RegisterScriptChildren(newExec func() func(op string) string) {
 			out[i] = runCase(sc)
 		}
 		return strings.Join(out, "\n\n")
-	})
-	hx.RegisterChild("last", func(arg string) string {
-		exec := newExec()
-		ans := ""
-		for _, l := range strings.Split(arg, "\n") {
-			ans = hx.Recover(func() string { return exec(l) })
-		}
-		return ans
 	})
 }
